@@ -455,3 +455,305 @@ Proof.
   intros s rate Hr Hs. split; [reflexivity|]. unfold poisson_logcdf. rn_simpl. apply exp_ln.
   apply (poisson_cdf_range_monotone rate s s); lra.
 Qed.
+
+(* ================================================================== limits at infinity (Normal) *)
+(* The value of erf at +-infinity is a fact about erf (the Gaussian integral), not about inferno's formulas; the
+   theorems below take it as a hypothesis and derive what the code's cdf / pdf / moment antiderivatives do. *)
+Lemma Rbar_mult_pos_p_infty : forall a : R, 0 < a -> Rbar_mult a p_infty = p_infty.
+Proof.
+  intros a Ha. apply is_Rbar_mult_unique. apply is_Rbar_mult_sym. apply is_Rbar_mult_p_infty_pos. exact Ha.
+Qed.
+Lemma Rbar_mult_pos_m_infty : forall a : R, 0 < a -> Rbar_mult a m_infty = m_infty.
+Proof.
+  intros a Ha. apply is_Rbar_mult_unique. apply is_Rbar_mult_sym. apply is_Rbar_mult_m_infty_pos. exact Ha.
+Qed.
+
+Theorem normal_cdf_limits : forall (erf : R -> R) loc scale (Lp Lm : R), 0 < scale ->
+  is_lim erf p_infty Lp -> is_lim erf m_infty Lm ->
+  is_lim (fun x => normal_cdf RN erf x loc scale) p_infty (/ 2 * (1 + Lp)) /\
+  is_lim (fun x => normal_cdf RN erf x loc scale) m_infty (/ 2 * (1 + Lm)).
+Proof.
+  intros erf loc scale Lp Lm Hs Hp Hm.
+  assert (H2 : 0 < Rsqrt (1 + 1)) by (apply sqrt_lt_R0; lra).
+  set (a := / (scale * Rsqrt (1 + 1))).
+  assert (Ha : 0 < a) by (apply Rinv_0_lt_compat, Rmult_lt_0_compat; assumption).
+  assert (E : forall y, / 2 * (1 + erf (a * y + - loc * a)) = normal_cdf RN erf y loc scale).
+  { intros y. dist_unfold. do 3 f_equal. unfold a. field. split; lra. }
+  split.
+  - apply (is_lim_ext _ _ _ _ E).
+    apply (is_lim_scal_l (fun y => 1 + erf (a * y + - loc * a)) (/ 2) p_infty (1 + Lp)).
+    apply (is_lim_plus' (fun _ => 1) (fun y => erf (a * y + - loc * a)) p_infty 1 Lp); [apply is_lim_const|].
+    apply is_lim_comp_lin; [|lra]. rewrite Rbar_mult_pos_p_infty by assumption. exact Hp.
+  - apply (is_lim_ext _ _ _ _ E).
+    apply (is_lim_scal_l (fun y => 1 + erf (a * y + - loc * a)) (/ 2) m_infty (1 + Lm)).
+    apply (is_lim_plus' (fun _ => 1) (fun y => erf (a * y + - loc * a)) m_infty 1 Lm); [apply is_lim_const|].
+    apply is_lim_comp_lin; [|lra]. rewrite Rbar_mult_pos_m_infty by assumption. exact Hm.
+Qed.
+
+(* "the density integrates to one": the integral over [a, b] tends to 1 as a -> -inf, b -> +inf, exactly when
+   erf(+-inf) = +-1 *)
+Theorem normal_pdf_integrates_to_one : forall (erf : R -> R) loc scale, erf_derivative erf -> 0 < scale ->
+  is_lim erf p_infty 1 -> is_lim erf m_infty (-1) ->
+  (forall a, is_lim (fun b => RInt (fun x => normal_pdf RN (2 * PI) x loc scale) a b) p_infty
+                    (1 - normal_cdf RN erf a loc scale)) /\
+  is_lim (fun a => 1 - normal_cdf RN erf a loc scale) m_infty 1.
+Proof.
+  intros erf loc scale He Hs Hp Hm.
+  destruct (normal_cdf_limits erf loc scale 1 (-1) Hs Hp Hm) as [L1 L2].
+  replace (/ 2 * (1 + 1)) with 1 in L1 by field. replace (/ 2 * (1 + -1)) with 0 in L2 by field.
+  split.
+  - intros a.
+    apply (is_lim_ext (fun b => normal_cdf RN erf b loc scale - normal_cdf RN erf a loc scale)).
+    + intros b. symmetry. apply is_RInt_unique. apply normal_pdf_integrates_to_cdf; assumption.
+    + apply (is_lim_minus' _ (fun _ => normal_cdf RN erf a loc scale) p_infty 1 _ L1). apply is_lim_const.
+  - pose proof (is_lim_minus' (fun _ => 1) (fun a => normal_cdf RN erf a loc scale) m_infty 1 0
+                  (is_lim_const 1 m_infty) L2) as H.
+    replace (1 - 0) with 1 in H by ring. exact H.
+Qed.
+
+(* ---- the density and (x - loc) * density vanish at +-infinity ---- *)
+Lemma Rbar_mult_neg_p_infty : forall a : R, a < 0 -> Rbar_mult a p_infty = m_infty.
+Proof.
+  intros a Ha. apply is_Rbar_mult_unique. apply is_Rbar_mult_sym. apply is_Rbar_mult_p_infty_neg. exact Ha.
+Qed.
+Lemma Rbar_mult_neg_m_infty : forall a : R, a < 0 -> Rbar_mult a m_infty = p_infty.
+Proof.
+  intros a Ha. apply is_Rbar_mult_unique. apply is_Rbar_mult_sym. apply is_Rbar_mult_m_infty_neg. exact Ha.
+Qed.
+
+Lemma lin_lim_p : forall a b : R, 0 < a -> is_lim (fun y => a * y + b) p_infty p_infty.
+Proof.
+  intros a b Ha. pose proof (is_lim_comp_lin (fun y => y) a b p_infty (Rbar_plus (Rbar_mult a p_infty) b)) as H.
+  rewrite Rbar_mult_pos_p_infty in H by assumption. apply H; [apply is_lim_id | lra].
+Qed.
+Lemma lin_lim_m : forall a b : R, 0 < a -> is_lim (fun y => a * y + b) m_infty m_infty.
+Proof.
+  intros a b Ha. pose proof (is_lim_comp_lin (fun y => y) a b m_infty (Rbar_plus (Rbar_mult a m_infty) b)) as H.
+  rewrite Rbar_mult_pos_m_infty in H by assumption. apply H; [apply is_lim_id | lra].
+Qed.
+
+Definition hfun (u : R) : R := u * Rexp (- / 2 * (u * u)).
+
+Lemma exp_half_sq_bound : forall u, 0 < u -> Rexp (- / 2 * (u * u)) <= 2 / (u * u).
+Proof.
+  intros u Hu. assert (Hw : 0 < / 2 * (u * u)) by nra.
+  pose proof (exp_ineq1_le (/ 2 * (u * u))) as H1.
+  replace (- / 2 * (u * u)) with (- (/ 2 * (u * u))) by ring. rewrite exp_Ropp.
+  assert (Hpos : 0 < Rexp (/ 2 * (u * u))) by apply exp_pos.
+  replace (2 / (u * u)) with (/ (/ 2 * (u * u))) by (field; lra).
+  apply Rinv_le_contravar; lra.
+Qed.
+
+Lemma hfun_lim_p : is_lim hfun p_infty 0.
+Proof.
+  apply (is_lim_le_le_loc (fun _ => 0) (fun u => 2 * / u) hfun p_infty 0).
+  - exists 1. intros u Hu. unfold hfun. split.
+    + apply Rmult_le_pos; [lra | left; apply exp_pos].
+    + pose proof (exp_half_sq_bound u ltac:(lra)) as H.
+      apply Rle_trans with (u * (2 / (u * u))); [apply Rmult_le_compat_l; lra|]. right. field. lra.
+  - apply is_lim_const.
+  - pose proof (is_lim_scal_l (fun u => / u) 2 p_infty 0) as H. simpl in H. rewrite Rmult_0_r in H. apply H.
+    pose proof (is_lim_inv (fun y => y) p_infty p_infty (is_lim_id p_infty)) as H1. simpl in H1. apply H1. discriminate.
+Qed.
+
+Lemma hfun_lim_m : is_lim hfun m_infty 0.
+Proof.
+  pose proof (is_lim_comp_lin hfun (-1) 0 m_infty 0) as H.
+  rewrite Rbar_mult_neg_m_infty in H by lra. simpl in H.
+  pose proof (is_lim_opp _ _ _ (H hfun_lim_p ltac:(lra))) as H1. simpl in H1. rewrite Ropp_0 in H1.
+  apply (is_lim_ext (fun y => - hfun (-1 * y + 0))); [|exact H1].
+  intros y. unfold hfun. replace ((-1 * y + 0) * (-1 * y + 0)) with (y * y) by ring. ring.
+Qed.
+
+Lemma exp_lim_gauss_p : is_lim (fun u => Rexp (- / 2 * (u * u))) p_infty 0.
+Proof.
+  apply (is_lim_le_le_loc (fun _ => 0) hfun _ p_infty 0).
+  - exists 1. intros u Hu. unfold hfun. pose proof (exp_pos (- / 2 * (u * u))). split; [lra | nra].
+  - apply is_lim_const.
+  - apply hfun_lim_p.
+Qed.
+Lemma exp_lim_gauss_m : is_lim (fun u => Rexp (- / 2 * (u * u))) m_infty 0.
+Proof.
+  pose proof (is_lim_comp_lin (fun u => Rexp (- / 2 * (u * u))) (-1) 0 m_infty 0) as H.
+  rewrite Rbar_mult_neg_m_infty in H by lra. simpl in H.
+  apply (is_lim_ext (fun y => Rexp (- / 2 * ((-1 * y + 0) * (-1 * y + 0))))); [|apply H; [apply exp_lim_gauss_p | lra]].
+  intros y. f_equal. ring.
+Qed.
+
+Lemma comp_lim_inf : forall (h : R -> R) (a b : R) (x : Rbar), 0 < a -> (x = p_infty \/ x = m_infty) ->
+  is_lim h x 0 -> is_lim (fun y => h (a * y + b)) x 0.
+Proof.
+  intros h a b x Ha Hx Hh. apply is_lim_comp_lin; [|lra].
+  destruct Hx as [-> | ->]; [rewrite Rbar_mult_pos_p_infty | rewrite Rbar_mult_pos_m_infty]; assumption.
+Qed.
+
+Theorem normal_pdf_vanishes_at_infinity : forall tau loc scale, 0 < tau -> 0 < scale ->
+  forall x : Rbar, x = p_infty \/ x = m_infty ->
+  is_lim (fun y => normal_pdf RN tau y loc scale) x 0 /\
+  is_lim (fun y => (y - loc) * normal_pdf RN tau y loc scale) x 0.
+Proof.
+  intros tau loc scale Ht Hs x Hx.
+  assert (Hq : 0 < Rsqrt tau) by (apply sqrt_lt_R0; assumption).
+  assert (Ha : 0 < / scale) by (apply Rinv_0_lt_compat; assumption).
+  set (c := 1 / (scale * Rsqrt tau)).
+  split.
+  - assert (Hg : is_lim (fun y => Rexp (- / 2 * ((/ scale * y + - loc / scale) * (/ scale * y + - loc / scale)))) x 0).
+    { apply (comp_lim_inf (fun u => Rexp (- / 2 * (u * u))) (/ scale) (- loc / scale) x Ha Hx).
+      destruct Hx as [-> | ->]; [apply exp_lim_gauss_p | apply exp_lim_gauss_m]. }
+    pose proof (is_lim_scal_l _ c x 0 Hg) as H. simpl in H. rewrite Rmult_0_r in H.
+    apply (is_lim_ext _ _ _ _ (fun y => eq_refl)) in H.
+    eapply is_lim_ext; [|exact H]. intros y. dist_unfold. unfold c. f_equal. f_equal. f_equal; field; lra.
+  - assert (Hg : is_lim (fun y => hfun (/ scale * y + - loc / scale)) x 0).
+    { apply (comp_lim_inf hfun (/ scale) (- loc / scale) x Ha Hx).
+      destruct Hx as [-> | ->]; [apply hfun_lim_p | apply hfun_lim_m]. }
+    pose proof (is_lim_scal_l _ (scale * c) x 0 Hg) as H. simpl in H. rewrite Rmult_0_r in H.
+    eapply is_lim_ext; [|exact H]. intros y. dist_unfold. unfold c, hfun.
+    replace (/ scale * y + - loc / scale) with ((y - loc) / scale) by (field; lra). field. lra.
+Qed.
+
+(* the stated mean and variance ARE the first and second central moments of the density: the antiderivatives of
+   x * pdf and (x - mean)^2 * pdf (normal_mean_antiderivative, normal_variance_antiderivative) tend to
+   mean resp. variance at +infinity and to 0 at -infinity, when erf(+-inf) = +-1 *)
+Theorem normal_moments_match_density : forall (erf : R -> R) loc scale, 0 < scale ->
+  is_lim erf p_infty 1 -> is_lim erf m_infty (-1) ->
+  let F1 := fun x => loc * normal_cdf RN erf x loc scale - scale * scale * normal_pdf RN (2 * PI) x loc scale in
+  let F2 := fun x => scale * scale * normal_cdf RN erf x loc scale
+                     - scale * scale * ((x - loc) * normal_pdf RN (2 * PI) x loc scale) in
+  (is_lim F1 p_infty (normal_mean RN loc) /\ is_lim F1 m_infty 0) /\
+  (is_lim F2 p_infty (normal_variance RN scale) /\ is_lim F2 m_infty 0).
+Proof.
+  intros erf loc scale Hs Hp Hm F1 F2.
+  assert (Ht : 0 < 2 * PI) by (pose proof PI_RGT_0; lra).
+  destruct (normal_cdf_limits erf loc scale 1 (-1) Hs Hp Hm) as [L1 L2].
+  replace (/ 2 * (1 + 1)) with 1 in L1 by field. replace (/ 2 * (1 + -1)) with 0 in L2 by field.
+  destruct (normal_pdf_vanishes_at_infinity (2 * PI) loc scale Ht Hs p_infty (or_introl eq_refl)) as [P1 Q1].
+  destruct (normal_pdf_vanishes_at_infinity (2 * PI) loc scale Ht Hs m_infty (or_intror eq_refl)) as [P2 Q2].
+  assert (K : forall (f g : R -> R) (k1 k2 : R) (x : Rbar) (lf lg : R), is_lim f x lf -> is_lim g x lg ->
+              is_lim (fun y => k1 * f y - k2 * g y) x (k1 * lf - k2 * lg)).
+  { intros f g k1 k2 x lf lg Hf Hg.
+    apply (is_lim_minus' (fun y => k1 * f y) (fun y => k2 * g y) x (k1 * lf) (k2 * lg)).
+    - exact (is_lim_scal_l f k1 x lf Hf).
+    - exact (is_lim_scal_l g k2 x lg Hg). }
+  unfold normal_mean, normal_variance, sq. rn_simpl.
+  repeat split.
+  - pose proof (K _ _ loc (scale * scale) p_infty 1 0 L1 P1) as H.
+    replace (loc * 1 - scale * scale * 0) with loc in H by ring. exact H.
+  - pose proof (K _ _ loc (scale * scale) m_infty 0 0 L2 P2) as H.
+    replace (loc * 0 - scale * scale * 0) with 0 in H by ring. exact H.
+  - pose proof (K _ _ (scale * scale) (scale * scale) p_infty 1 0 L1 Q1) as H.
+    replace (scale * scale * 1 - scale * scale * 0) with (scale * scale) in H by ring. exact H.
+  - pose proof (K _ _ (scale * scale) (scale * scale) m_infty 0 0 L2 Q2) as H.
+    replace (scale * scale * 0 - scale * scale * 0) with 0 in H by ring. exact H.
+Qed.
+
+(* ================================================================== LogNormal: total mass and moments *)
+(* exponential tilting of the normal density: e^(k u) phi(u; mu, s) = e^(k mu + k^2 s^2 / 2) phi(u; mu + k s^2, s) *)
+Lemma normal_pdf_tilt : forall tau u loc scale k, 0 < tau -> 0 < scale ->
+  Rexp (k * loc + k * k * (scale * scale) / 2) * normal_pdf RN tau u (loc + k * (scale * scale)) scale
+  = Rexp (k * u) * normal_pdf RN tau u loc scale.
+Proof.
+  intros tau u loc scale k Ht Hs. dist_unfold.
+  assert (Hq : 0 < Rsqrt tau) by (apply sqrt_lt_R0; assumption).
+  set (c := 1 / (scale * Rsqrt tau)).
+  rewrite (Rmult_comm c), <- !Rmult_assoc, <- !exp_plus. rewrite (Rmult_comm _ c). symmetry. rewrite (Rmult_comm _ c).
+  f_equal. f_equal. field. lra.
+Qed.
+
+Lemma lognormal_cdf_derivative_gen : forall (erf : R -> R) loc' scale x, erf_derivative erf -> 0 < scale -> 0 < x ->
+  is_derive (fun x => normal_cdf RN erf (Rln x) loc' scale) x (normal_pdf RN (2 * PI) (Rln x) loc' scale / x).
+Proof.
+  intros erf loc' scale x He Hs Hx.
+  pose proof (is_derive_comp (fun u => normal_cdf RN erf u loc' scale) Rln x _ _
+                (normal_pdf_is_derivative_of_cdf erf loc' scale (Rln x) He Hs) (is_derive_ln x Hx)) as H.
+  match type of H with is_derive _ _ ?d => replace (normal_pdf RN (2 * PI) (Rln x) loc' scale / x) with d; [exact H|] end.
+  generalize (normal_pdf RN (2 * PI) (Rln x) loc' scale). intros p.
+  unfold scal; simpl. unfold mult; simpl. field. lra.
+Qed.
+
+(* antiderivatives of x * pdf and x^2 * pdf on (0, inf): closed forms through the normal cdf with shifted location *)
+Theorem lognormal_moment_antiderivatives : forall (erf : R -> R) loc scale x, erf_derivative erf -> 0 < scale -> 0 < x ->
+  is_derive (fun x => lognormal_mean RN loc scale * normal_cdf RN erf (Rln x) (loc + scale * scale) scale) x
+            (x * lognormal_pdf RN (2 * PI) x loc scale) /\
+  is_derive (fun x => Rexp (2 * loc + 2 * (scale * scale)) * normal_cdf RN erf (Rln x) (loc + 2 * (scale * scale)) scale) x
+            (x ^ 2 * lognormal_pdf RN (2 * PI) x loc scale).
+Proof.
+  intros erf loc scale x He Hs Hx.
+  assert (Ht : 0 < 2 * PI) by (pose proof PI_RGT_0; lra).
+  destruct (lognormal_pdf_closed_form (2 * PI) x loc scale Ht Hs Hx) as [_ [E _]]. rewrite E.
+  split.
+  - pose proof (is_derive_scal _ x (lognormal_mean RN loc scale) _
+                  (lognormal_cdf_derivative_gen erf (loc + scale * scale) scale x He Hs Hx)) as H.
+    match type of H with is_derive _ _ ?d => replace (x * (normal_pdf RN (2 * PI) (Rln x) loc scale / x)) with d; [exact H|] end.
+    pose proof (normal_pdf_tilt (2 * PI) (Rln x) loc scale 1 Ht Hs) as T.
+    rewrite !Rmult_1_l, exp_ln in T by assumption.
+    unfold lognormal_mean, sq. rn_unfold.
+    replace (loc + scale * scale / (1 + 1)) with (loc + scale * scale / 2) by field.
+    unfold Rdiv at 1. rewrite <- Rmult_assoc, T. field. lra.
+  - pose proof (is_derive_scal _ x (Rexp (2 * loc + 2 * (scale * scale))) _
+                  (lognormal_cdf_derivative_gen erf (loc + 2 * (scale * scale)) scale x He Hs Hx)) as H.
+    match type of H with is_derive _ _ ?d => replace (x ^ 2 * (normal_pdf RN (2 * PI) (Rln x) loc scale / x)) with d; [exact H|] end.
+    pose proof (normal_pdf_tilt (2 * PI) (Rln x) loc scale 2 Ht Hs) as T.
+    replace (2 * loc + 2 * 2 * (scale * scale) / 2) with (2 * loc + 2 * (scale * scale)) in T by field.
+    replace (Rexp (2 * Rln x)) with (x ^ 2) in T.
+    2:{ replace (2 * Rln x) with (Rln x + Rln x) by ring. rewrite exp_plus, exp_ln by assumption. ring. }
+    unfold Rdiv at 1. rewrite <- Rmult_assoc, T. field. lra.
+Qed.
+
+(* the stated variance is (second raw moment) - mean^2, with the second raw moment exp(2 mu + 2 sigma^2) *)
+Theorem lognormal_variance_from_moments : forall loc scale,
+  lognormal_variance RN loc scale = Rexp (2 * loc + 2 * (scale * scale)) - (lognormal_mean RN loc scale) ^ 2.
+Proof.
+  intros loc scale. dist_unfold.
+  replace (Rexp (2 * loc + 2 * (scale * scale))) with (Rexp (scale * scale) * Rexp ((1 + 1) * loc + scale * scale))
+    by (rewrite <- exp_plus; f_equal; ring).
+  replace (Rexp (loc + scale * scale / (1 + 1)) ^ 2) with (Rexp ((1 + 1) * loc + scale * scale)).
+  - ring.
+  - simpl. rewrite Rmult_1_r, <- exp_plus. f_equal. field.
+Qed.
+
+(* limits: at +infinity and at 0+ (the support is (0, inf)) *)
+Theorem lognormal_cdf_limits : forall (erf : R -> R) loc' scale (Lp Lm : R), 0 < scale ->
+  is_lim erf p_infty Lp -> is_lim erf m_infty Lm ->
+  is_lim (fun x => normal_cdf RN erf (Rln x) loc' scale) p_infty (/ 2 * (1 + Lp)) /\
+  filterlim (fun x => normal_cdf RN erf (Rln x) loc' scale) (at_right 0) (locally (/ 2 * (1 + Lm))).
+Proof.
+  intros erf loc' scale Lp Lm Hs Hp Hm.
+  destruct (normal_cdf_limits erf loc' scale Lp Lm Hs Hp Hm) as [L1 L2].
+  split.
+  - apply (is_lim_comp (fun u => normal_cdf RN erf u loc' scale) Rln p_infty (/ 2 * (1 + Lp)) p_infty L1 is_lim_ln_p).
+    exists 0. intros y _. discriminate.
+  - eapply filterlim_comp; [apply is_lim_ln_0 | exact L2].
+Qed.
+
+(* total mass one and the stated mean / second moment, as limits of the antiderivatives, when erf(+-inf) = +-1 *)
+Theorem lognormal_mass_and_moments : forall (erf : R -> R) loc scale, 0 < scale ->
+  is_lim erf p_infty 1 -> is_lim erf m_infty (-1) ->
+  (is_lim (fun x => lognormal_cdf RN erf x loc scale) p_infty 1 /\
+   filterlim (fun x => lognormal_cdf RN erf x loc scale) (at_right 0) (locally 0)) /\
+  (is_lim (fun x => lognormal_mean RN loc scale * normal_cdf RN erf (Rln x) (loc + scale * scale) scale) p_infty
+          (lognormal_mean RN loc scale) /\
+   filterlim (fun x => lognormal_mean RN loc scale * normal_cdf RN erf (Rln x) (loc + scale * scale) scale)
+             (at_right 0) (locally 0)) /\
+  (is_lim (fun x => Rexp (2 * loc + 2 * (scale * scale)) * normal_cdf RN erf (Rln x) (loc + 2 * (scale * scale)) scale)
+          p_infty (Rexp (2 * loc + 2 * (scale * scale))) /\
+   filterlim (fun x => Rexp (2 * loc + 2 * (scale * scale)) * normal_cdf RN erf (Rln x) (loc + 2 * (scale * scale)) scale)
+             (at_right 0) (locally 0)).
+Proof.
+  intros erf loc scale Hs Hp Hm.
+  assert (G : forall loc' (k : R),
+            is_lim (fun x => k * normal_cdf RN erf (Rln x) loc' scale) p_infty k /\
+            filterlim (fun x => k * normal_cdf RN erf (Rln x) loc' scale) (at_right 0) (locally 0)).
+  { intros loc' k. destruct (lognormal_cdf_limits erf loc' scale 1 (-1) Hs Hp Hm) as [L1 L2].
+    replace (/ 2 * (1 + 1)) with 1 in L1 by field. replace (/ 2 * (1 + -1)) with 0 in L2 by field.
+    split.
+    - pose proof (is_lim_scal_l _ k p_infty 1 L1) as H. simpl in H. rewrite Rmult_1_r in H. exact H.
+    - pose proof (filterlim_scal_r k _ 0 L2) as H1.
+      replace 0 with (scal k 0) at 2 by (unfold scal; simpl; unfold mult; simpl; ring).
+      eapply filterlim_ext; [|exact H1]. intros x. reflexivity. }
+  split; [|split].
+  - destruct (G loc 1) as [A B]. split.
+    + eapply is_lim_ext; [|exact A]. intros y. unfold lognormal_cdf. rn_simpl. ring.
+    + eapply filterlim_ext; [|exact B]. intros y. unfold lognormal_cdf. rn_simpl. ring.
+  - apply G.
+  - apply G.
+Qed.
